@@ -238,7 +238,7 @@ theorem legal_path_literals :
 
 /-- the same fingerprint for the other hand-mirrored string functions (character codes: 47 '/', 46 '.', 63 '?',
     42 '*', 92 '\\', 0 NUL):
-    * `check_valid_path`: `current_dir = "."`, (the tag of `debug_warn`), `ret_path[0] == '/'`, `ret_path[0] == '\0'`
+    * `check_valid_path`: `current_dir = "."`, `ret_path[0] == '/'`, `ret_path[0] == '\0'`
       — `Model.stripOneSlash`, `cvpFinish`;
     * `inc_lexically_normal`: the slash tests and the prefixes `"../"` and `"./"` in source order — `Model.incLoop`;
     * `inc_open`: the three '.' of the ".." scan — `Model.hasDotDot`;
@@ -246,36 +246,44 @@ theorem legal_path_literals :
     A changed comparison character / prefix (or a reordering) breaks this obligation; the exhaustive differential run
     over the same functions then looks for an input. -/
 theorem path_function_literals :
-    literals.lookup "check_valid_path" = some ["s\".\"", "s\"WARN\"", "c47", "c0"] ∧
+    literals.lookup "check_valid_path" = some ["s\".\"", "c47", "c0"] ∧
     literals.lookup "inc_lexically_normal" =
       some ["c47", "c47", "s\"../\"", "c47", "c47", "s\"./\"", "c47", "s\"/\"", "c47", "c47", "c47"] ∧
     literals.lookup "inc_open" = some ["c46", "c46", "c46"] ∧
     literals.lookup "match_string" = some ["c0", "c0", "c63", "c0", "c42", "c0", "c0", "c0", "c92", "c0"] := by decide
 
-/-- which libc function each function of the efun layer / loader calls, in source order (regenerated site table):
+/-- which libc function each function of the efun layer / loader calls, as a set (regenerated site table):
     the names `Sys.efunEvents`, `getDirFs`, `renameEfun` / `moveEvents`, `cpEfun`, `saveEfun`, `edIo`, `loadEvents`,
     `includeOpens` print for their events (`open` vs `fopen`, `unlink`, `symlink` …).  binaries.c is left out (C17's
     ground; its rows are covered by `mediated_sites`). -/
 def siteCallees (f : String) : List String := (sites.filter (fun s => s.fn == f && s.arg == 0)).map (·.callee)
 
+def insertS (x : String) : List String → List String
+  | [] => [x]
+  | y :: r => if x < y then x :: y :: r else if x == y then y :: r else y :: insertS x r
+
+/-- the SET of libc file functions a function calls (sorted, without repetitions: an additional `unlink` on an error
+    path or a reordered cleanup does not change it, a new kind of call does) -/
+def calleeSet (f : String) : List String := (siteCallees f).foldr insertS []
+
 theorem efun_libc_table :
-    [("read_file", siteCallees "read_file"), ("write_file", siteCallees "write_file"),
-     ("remove_file", siteCallees "remove_file"), ("f_mkdir", siteCallees "f_mkdir"), ("f_rmdir", siteCallees "f_rmdir"),
-     ("file_size", siteCallees "file_size"), ("file_length", siteCallees "file_length"), ("tail", siteCallees "tail"),
-     ("read_bytes", siteCallees "read_bytes"), ("write_bytes", siteCallees "write_bytes"), ("f_stat", siteCallees "f_stat"),
-     ("get_dir", siteCallees "get_dir"), ("do_move", siteCallees "do_move"), ("copy", siteCallees "copy"),
-     ("copy_file", siteCallees "copy_file"), ("save_object", siteCallees "save_object"),
-     ("restore_object", siteCallees "restore_object"), ("dumpstat", siteCallees "dumpstat"),
-     ("dump_prog", siteCallees "dump_prog"), ("doread", siteCallees "doread"), ("dowrite", siteCallees "dowrite"),
-     ("load_object", siteCallees "load_object"), ("inc_open", siteCallees "inc_open")] =
+    [("read_file", calleeSet "read_file"), ("write_file", calleeSet "write_file"),
+     ("remove_file", calleeSet "remove_file"), ("f_mkdir", calleeSet "f_mkdir"), ("f_rmdir", calleeSet "f_rmdir"),
+     ("file_size", calleeSet "file_size"), ("file_length", calleeSet "file_length"), ("tail", calleeSet "tail"),
+     ("read_bytes", calleeSet "read_bytes"), ("write_bytes", calleeSet "write_bytes"), ("f_stat", calleeSet "f_stat"),
+     ("get_dir", calleeSet "get_dir"), ("do_move", calleeSet "do_move"), ("copy", calleeSet "copy"),
+     ("copy_file", calleeSet "copy_file"), ("save_object", calleeSet "save_object"),
+     ("restore_object", calleeSet "restore_object"), ("dumpstat", calleeSet "dumpstat"),
+     ("dump_prog", calleeSet "dump_prog"), ("doread", calleeSet "doread"), ("dowrite", calleeSet "dowrite"),
+     ("load_object", calleeSet "load_object"), ("inc_open", calleeSet "inc_open")] =
     [("read_file", ["open"]), ("write_file", ["fopen"]), ("remove_file", ["unlink"]), ("f_mkdir", ["mkdir"]),
      ("f_rmdir", ["rmdir"]), ("file_size", ["stat"]), ("file_length", ["open"]), ("tail", ["fopen"]),
      ("read_bytes", ["fopen"]), ("write_bytes", ["open"]), ("f_stat", ["stat"]),
-     ("get_dir", ["stat", "opendir", "stat"]), ("do_move", ["rename", "unlink", "symlink"]),
-     ("copy", ["open", "open", "unlink", "unlink"]), ("copy_file", ["open", "stat", "open"]),
-     ("save_object", ["fopen", "unlink", "unlink", "rename", "unlink"]), ("restore_object", ["fopen"]),
+     ("get_dir", ["opendir", "stat"]), ("do_move", ["rename", "symlink", "unlink"]),
+     ("copy", ["open", "unlink"]), ("copy_file", ["open", "stat"]),
+     ("save_object", ["fopen", "rename", "unlink"]), ("restore_object", ["fopen"]),
      ("dumpstat", ["fopen"]), ("dump_prog", ["fopen"]), ("doread", ["fopen"]), ("dowrite", ["fopen"]),
-     ("load_object", ["stat", "open"]), ("inc_open", ["open", "open"])] := by decide
+     ("load_object", ["open", "stat"]), ("inc_open", ["open"])] := by decide
 
 /-- `save_object` builds its temporary file with `"%.250s.tmp"` from the approved path (the `250` of
     `Sys.saveEfun` and of the oracle's `covers`) -/
